@@ -89,6 +89,9 @@ def run(ctx):
     rule_nsigner(ctx, F)
     rule_wildce(ctx, F)
     rule_sigttl(ctx, F)
+    rule_split(ctx, F)
+    rule_dsusable(ctx, F)
+    rule_optout(ctx, F)
 
 
 def rule_sig(ctx, F):
@@ -904,3 +907,119 @@ def rule_sigttl(ctx, F):
                "%s: after check_sig_cached succeeded, %s -- the validity returned with the secure verdict (or stored in the chain "
                "node) is not capped by the remaining lifetime of the RRSIG that was verified: the verdict outlives the signature "
                "it rests on" % (b.path.split("::{closure")[0].split("::")[-1], why), b.where(bb))
+
+
+def rule_split(ctx, F):
+    """Key, signature and bitmap octets come from upstream.  `split_at(n)` panics when n exceeds the slice: every
+    such call in the DNSSEC code (crypto::common, the validator, rdata::dnssec) lies behind `n <= len` established
+    for the *same* slice -- a bound on some other slice (the whole key instead of what is left of it) does not do."""
+    from rulelib import relations
+    R = "C14.split"
+    ctx.floor(R, 2)
+    n = 0
+    for p, b in sorted(F.bodies.items()):
+        if not re.match(r"^<?(crypto::common::|dnssec::validator::|dnssec::common::|rdata::dnssec|net::client::validator)", p) or "::test" in p:
+            continue
+        for bb, t in b.calls():
+            if not re.search(r"<impl \[T\]>::split_at(_mut)?$", t["fn"] or ""):
+                continue
+            recv = deep_strip(b.term_of_operand(t["args"][0]))
+            k = deep_strip(b.term_of_operand(t["args"][1]))
+            n += 1
+            if const_value(k) == 0:
+                ctx.ob(R, b, "split_at#%d" % n, True, where=b.where(bb), nontrivial=False, detail="constant 0")
+                continue
+            ok = False
+            for x, rel, y in relations(b, bb, F):
+                x, y = deep_strip(x), deep_strip(y)
+                if rel in ("<=", "<") and canon_nobb(x) == canon_nobb(k) and y[0] in ("call", "len") and \
+                        ((y[0] == "call" and (y[1] or "").endswith("::len") and y[3] and canon_nobb(deep_strip(y[3][0])) == canon_nobb(recv))
+                         or (y[0] == "len" and canon_nobb(deep_strip(y[1])) == canon_nobb(recv))):
+                    ok = True
+            ctx.ob(R, b, "split_at(n) behind n <= len of the same slice #%d" % sum(1 for o in ctx.obs if o.rule == R and o.fn == b.path), ok,
+                   "%s splits %s at %s without having compared that length with the length of this very slice on the way: "
+                   "upstream data (a DNSKEY with an over-long exponent length, a crafted bitmap) makes it panic"
+                   % (p.split("::")[-1], show(recv)[:70], show(k)[:50]), b.where(bb))
+    ctx.call_sites += n
+
+
+def rule_dsusable(ctx, F):
+    """RFC 4035 5.2: a DS record is usable only if *its* key algorithm and *its* digest type are both supported; the
+    delegation is insecure if no single DS record is usable.  So wherever create_child_node asks one of the two
+    questions it asks the other one about the same record (same closure / loop body, same element) -- never
+    `any(alg ok) && any(digest ok)` over the set."""
+    R = "C14.dsusable"
+    ctx.floor(R, 2)
+    sites = []
+    for p, b in sorted(F.bodies.items()):
+        if not re.search(r"ValidationContext::<\w+>::create_child_node", p):
+            continue
+        a = b.calls_matching(r"validator::base::supported_algorithm$|::supported_algorithm$")
+        d = b.calls_matching(r"validator::base::supported_digest$|::supported_digest$")
+        if a or d:
+            sites.append((b, a, d))
+    if not ctx.anchor(R, "uses of supported_algorithm / supported_digest in create_child_node", len(sites) >= 2):
+        return
+    for b, a, d in sites:
+        same = False
+        if a and d:
+            ra = {x[1] for bb, t in a for x in walk(deep_strip(b.term_of_operand(t["args"][0]))) if x[0] == "arg"}
+            rd = {x[1] for bb, t in d for x in walk(deep_strip(b.term_of_operand(t["args"][0]))) if x[0] == "arg"}
+            same = bool(ra & rd) or (not ra and not rd)
+        ctx.ob(R, b, "algorithm and digest type are judged on the same DS record", bool(a) and bool(d) and same,
+               "%s asks %s without asking %s about the same DS record: a DS RRset in which no single record is usable "
+               "(supported algorithm with unsupported digest type next to unsupported algorithm with supported digest type) "
+               "counts as usable, and the delegation is reported bogus instead of insecure"
+               % (b.path.split("create_child_node")[-1].lstrip(":") or "create_child_node",
+                  "supported_algorithm" if a else "supported_digest", "supported_digest" if a else "supported_algorithm"), b.where())
+
+
+def rule_optout(ctx, F):
+    """An NSEC3 proof that passes through an opt-out span is insecure (RFC 5155 9.2).  The two-step proofs
+    (nsec3_for_nxdomain, nsec3_for_nodata_wildcard) first find the closest encloser with nsec3_for_not_exists and
+    then prove something about the wildcard: the *secure* verdict (DoesNotExist / NoData built from scratch) is
+    never produced on a path on which the first step answered DoesNotExistInsecure -- decided path-sensitively, the
+    flag that carries the first answer to the end is followed through the tuple it travels in."""
+    from rulelib import flow_states
+    R = "C14.optout"
+    ctx.floor(R, 2)
+    SECURE = {"dnssec::validator::nsec::Nsec3NXState": "DoesNotExist", "dnssec::validator::nsec::Nsec3State": "NoData"}
+    for fn in ("nsec3_for_nxdomain", "nsec3_for_nodata_wildcard"):
+        bs = [b for p, b in F.bodies.items() if re.search(r"^dnssec::validator::nsec::%s::\{closure#0\}$" % fn, p)]
+        if not ctx.anchor(R, fn, len(bs) == 1):
+            continue
+        b = bs[0]
+
+        def on_call(bb, t, st):
+            return st
+
+        def on_edge(bb, lab, fact, st):
+            if fact is None:
+                return st
+            tm, v = fact
+            if isinstance(v, tuple) and v[0] == "variant" and v[1] in ("DoesNotExist", "DoesNotExistInsecure"):
+                head = deep_strip(tm)
+                while head[0] in ("field", "downcast", "deref", "ref", "cast"):
+                    head = deep_strip(head[2] if head[0] == "cast" else head[1])
+                if head[0] == "call" and any(re.search(r"nsec::nsec3_for_not_exists(::\{closure#0\})?$", nm or "") for nm in head[1:3]):
+                    return "sec" if v[1] == "DoesNotExist" else "insec"
+            return st
+        at = flow_states(b, F, "none", on_call, on_edge)
+        if not ctx.anchor(R, "path exploration of %s within budget" % fn, at is not None, b.where()):
+            continue
+        sites = []
+        for bi in sorted(b.reachable_blocks()):
+            if b.blocks[bi].get("c"):
+                continue
+            for st in b.blocks[bi]["s"]:
+                if st[0] == "=" and st[2][0] == "agg" and st[2][1][0] == "adt" and SECURE.get(st[2][1][1]) == st[2][1][2]:
+                    sites.append(bi)
+        if not ctx.anchor(R, "the secure verdict built in %s" % fn, len(sites) >= 1, b.where()):
+            continue
+        for n, bi in enumerate(sites):
+            sts = at.get(bi, set())
+            ctx.ob(R, b, "secure verdict #%d only after a secure closest-encloser proof" % (n + 1), "insec" not in sts and "sec" in sts,
+                   "%s builds its secure verdict on a path on which nsec3_for_not_exists had answered DoesNotExistInsecure (an "
+                   "opt-out NSEC3 covers the next-closer name): names below an opt-out span are reported as securely "
+                   "non-existent, so an unsigned delegation can be made to vanish with the zone's own NSEC3 records (states "
+                   "reaching the site: %s)" % (fn, sorted(sts)), b.where(bi))
